@@ -32,6 +32,7 @@ type Prog struct {
 	Macros    map[string]*Macro
 	globConst map[*ssa.Global]*ssa.Const
 	globInit  bool
+	idxFns    map[string]*ssa.Function
 }
 
 // in-scope package patterns (relative to /repo)
